@@ -48,7 +48,16 @@ type HarnessResult struct {
 	EndKinds      map[string]int
 	TermCount     int
 	SolverWhat    map[string]int
+	// FirstViolation is the time of the first violation that is not
+	// attributed to a known finding; exploration of the harness stops
+	// ViolationGrace later (a broken tree must not make the check run away).
+	FirstViolation time.Time
+	StoppedEarly   bool
 }
+
+// ViolationGrace is how long a harness keeps exploring after its first
+// unattributed violation.
+var ViolationGrace = 60 * time.Second
 
 type workQueue struct {
 	mu      sync.Mutex
@@ -287,6 +296,16 @@ func (m *Machine) exploreItem(fn *ssa.Function, prefix []PrefixEntry, q *workQue
 			q.abort()
 			return
 		}
+		mu.Lock()
+		fv := res.FirstViolation
+		mu.Unlock()
+		if !fv.IsZero() && time.Since(fv) > ViolationGrace {
+			mu.Lock()
+			res.StoppedEarly = true
+			mu.Unlock()
+			q.abort()
+			return
+		}
 		m.violations = m.violations[:0]
 		m.inconclusive = m.inconclusive[:0]
 		pr := m.runPath(fn)
@@ -328,6 +347,14 @@ func (m *Machine) exploreItem(fn *ssa.Function, prefix []PrefixEntry, q *workQue
 		}
 		res.Inconclusive = appendUnique(res.Inconclusive, m.inconclusive...)
 		res.Violations = append(res.Violations, m.violations...)
+		if res.FirstViolation.IsZero() {
+			for _, v := range m.violations {
+				if v.KnownKey == "" {
+					res.FirstViolation = time.Now()
+					break
+				}
+			}
+		}
 		mu.Unlock()
 		if wantSample {
 			func() {
